@@ -3,6 +3,50 @@ from harness.checks import bodychecks
 
 def run(chk):
     bodychecks.run(chk, 'C13')
+    form_text_budget(chk)
+
+
+def form_text_budget(chk):
+    """Third clause of C13: form text larger than the in-memory threshold is refused rather than loaded
+    (multipart text fields share one budget; urlencoded bodies are limited by Content-Length)."""
+    import random
+    from harness.checks import formlib as fl, mplib
+    rng = random.Random(chk.seed * 29 + 13)
+    thorough = chk.tier == 'thorough'
+    by_b = {}
+    b = b'Bnd'
+    for _ in range(1500 if thorough else 200):
+        buf = rng.choice([200, 300, 800])
+        n = rng.choice([1, 2, 3, 8, 40])
+        size = rng.choice([0, 10, buf // 4, buf // 2 + 50, max(0, buf - 150), buf - 100, buf + 1, 2 * buf])
+        while n > 1 and n * max(size, 40) > 2500:      # keep bodies small enough for TLC to evaluate the model on them
+            n = n // 2
+        fs = []
+        for i in range(n):
+            if rng.random() < 0.25:
+                fs.append({'name': 'f%d' % i, 'filename': 'up.bin', 'data': b'D' * rng.choice([10, buf + 5])})     # uploads do not count
+            else:
+                fs.append({'name': 't%d' % i, 'value': 'v' * max(0, size + rng.randint(-3, 3))})
+        body = mplib.encode_form(fs, b)
+        res = fl.post(buf, body, 'multipart/form-data; boundary=Bnd', chunked=rng.random() < 0.3, rng=rng)
+        t = fl.to_trace(body, buf, 'budget', fs, res, full=res['one_piece'])
+        by_b.setdefault(b, []).append((t, {'buf': buf, 'n': n, 'size': size}))
+        chk.count(1, ('budget', buf, n, size, len(body)))
+    # urlencoded text
+    for _ in range(400 if thorough else 80):
+        buf = rng.choice([50, 300, 1000])
+        k = rng.choice([buf - 10, buf - 4, buf - 3, buf - 2, buf, buf + 1, 4 * buf])
+        body = b'a=' + b'v' * max(0, k)
+        res = fl.post(buf, body, 'application/x-www-form-urlencoded', what='forms', chunked=False, rng=None)
+        t = fl.to_trace(body, buf, 'raw', None, res)
+        by_b.setdefault(b, []).append((t, {'buf': buf, 'n': 1, 'size': k, 'urlencoded': True}))
+        chk.count(1, ('urlenc', buf, k))
+
+    def describe(t, m, rel, bnd):
+        chk.violation('C13: %s fails: %s text field(s) of about %s bytes with max_memfile_size %s -> status %s, %s bytes of text loaded'
+                      % (rel, m['n'], m['size'], m['buf'], t['status'], sum(len(v) for k, vs in t['forms'] for v in vs)),
+                      {'buf': m['buf'], 'n': m['n'], 'size': m['size'], 'clauses': rel, 'status': t['status']})
+    fl.validate(chk, by_b, 'C13 form text', {'TextBudget', 'ClientErrorOnly'}, describe)
 
 
 def replay(path):
